@@ -54,10 +54,19 @@ func (k pkey) String() string {
 	return fmt.Sprintf("%s|%d.%06d|%s", k.cname, k.ctime.Unix(), k.cusec, k.sname)
 }
 
+var zoneCtr atomic.Uint64
+
 func (k pkey) auth() (types.PrincipalName, types.Authenticator) {
 	sn := types.PrincipalName{NameType: 2, NameString: strings.Split(k.sname, "/")}
+	ct := k.ctime
+	// The same instant can reach the cache as different time.Time values: a decoder builds a fresh *time.Location for every
+	// GeneralizedTime with a numeric zone offset. Every other presentation therefore carries the instant in a newly made
+	// fixed zone (never interned: not a whole number of hours), also with a monotonic-free wall representation.
+	if zoneCtr.Add(1)%2 == 0 {
+		ct = ct.In(time.FixedZone("", 5*3600+1800))
+	}
 	a := types.Authenticator{AVNO: 5, CRealm: "TEST.GOKRB5", CName: types.PrincipalName{NameType: 1, NameString: strings.Split(k.cname, "/")},
-		CTime: k.ctime, Cusec: k.cusec, SeqNumber: 1}
+		CTime: ct, Cusec: k.cusec, SeqNumber: 1}
 	return sn, a
 }
 
